@@ -4,9 +4,27 @@
     are the handler's lock sections and the environment; tied to the code by ./check C46, which
     drives a real handler through chosen step orders). *)
 From Coq Require Import List ZArith Bool NArith.
-From V Require Import lib.Verdict model.M_C46 proofs.P_C46.
+From V Require Import lib.Verdict lib.GoInt gen.Gen_C46 model.M_C46 proofs.P_C46 proofs.P_C46_gen.
 Import ListNotations.
 Open Scope Z_scope.
+
+(** The backoff function the theorems talk about IS the code's: [gen/Gen_C46.v] is re-translated
+    from peering/peering.go ((*peerHandler).nextBackoff, math/rand/v2.Int64N as oracle arguments,
+    int64 arithmetic through the width-aware wrappers) on every run; for all arguments in range it
+    equals the hand model [nb], never wraps around and never panics. *)
+Theorem C46_backoff_is_the_code : forall d r1 r2,
+  initial_delay <= d <= max_backoff -> 0 <= r1 < d -> 0 <= r2 < jitter_span ->
+  peerHandler_nextBackoff d r1 r2 = (nb d r1 r2, nb d r1 r2) /\
+  peerHandler_nextBackoff_ok d r1 r2 = true.
+Proof. exact gen_nextBackoff_eq. Qed.
+Print Assumptions C46_backoff_is_the_code.
+
+Theorem C46_backoff_code_range : forall d r1 r2,
+  initial_delay <= d <= max_backoff -> 0 <= r1 < d -> 0 <= r2 < jitter_span ->
+  let '(v, d') := peerHandler_nextBackoff d r1 r2 in
+  v = d' /\ 0 < d' <= max_backoff /\ initial_delay <= d'.
+Proof. exact gen_nextBackoff_range. Qed.
+Print Assumptions C46_backoff_code_range.
 
 (** Backoff: for every current delay in [5 s, 10 min] and every pair of random draws in the ranges
     the code uses, the value nextBackoff returns is accepted by [next_ok], and every accepted value
